@@ -90,6 +90,35 @@ def strip_attrs_in_body(text):
                 cuts.append((toks[i].start, toks[j].end))
                 i = j + 1
                 continue
+            if a == '#[cfg(target_arch="x86_64")]':
+                # The x86_64-only HypPci transport is outside the verified configuration (DESIGN section 7): drop the
+                # attribute together with the match arm / enum variant / statement it guards.
+                j = k + 1
+                depth = 0
+                end = None
+                while j < len(toks):
+                    t = toks[j]
+                    if t.kind == 'punct':
+                        if t.text in rsx.OPEN:
+                            depth += 1
+                        elif t.text in rsx.CLOSE:
+                            depth -= 1
+                            if depth < 0:
+                                end = toks[j - 1].end
+                                break
+                            if depth == 0 and t.text == '}' and j + 1 < len(toks) and toks[j + 1].text not in (',', '.', '?'):
+                                end = t.end
+                                break
+                        elif depth == 0 and t.text in (',', ';'):
+                            end = t.end
+                            break
+                    j += 1
+                if end is None:
+                    end = toks[-1].end
+                cuts.append((toks[i].start, end))
+                while i < len(toks) and toks[i].start < end:
+                    i += 1
+                continue
             if a.startswith('#[cfg('):
                 raise ExtractError('unsupported cfg attribute in extracted text: ' + a)
             # unknown attribute: drop (derive, repr etc. are handled at item level)
@@ -279,6 +308,14 @@ class Unit:
                     else:
                         raise ExtractError('unknown FN sub-directive: ' + d2)
                 self.do_fn(fs)
+            elif d.startswith('STUBFN'):
+                # //@STUBFN <file> <selector> from=<template.vrs>  : contract stub of a function verified in another unit
+                parts = d.split()
+                file = parts[1]
+                rest = ' '.join(parts[2:])
+                opts = dict(om.groups() for om in re.finditer(r'(from|rules|rename|attr)=(\S+)', rest))
+                selector = re.sub(r'\s*(from|rules|rename|attr)=\S+', '', rest).strip()
+                self.do_stubfn(file, selector, opts)
             elif d.startswith('STRUCT') or d.startswith('ENUM'):
                 parts = d.split()
                 file, name = parts[1], parts[2]
@@ -413,6 +450,55 @@ class Unit:
                 self.emit('#[%s]\n' % fs.opts['attr'])
             self.emit(vsig + '\n' + vspec.rstrip('\n') + '\n' + body + '\n')
             self.twins.append(fname + '__vac')
+
+    def do_stubfn(self, file, selector, opts):
+        """Emit `selector` as an external_body stub carrying exactly the SPEC text it is verified against in
+        template opts['from'] (so callers are checked against the proved contract, not a hand copy)."""
+        tpath = os.path.join(self.units_dir, opts['from'])
+        lines = open(tpath).read().split('\n')
+        spec = None
+        for i, ln in enumerate(lines):
+            m = re.match(r'\s*//@FN\s+(\S+)\s+(.*)$', ln)
+            if m and m.group(1) == file and re.sub(r'\s*(rules|rename|props|novac|attr)=\S+', '', m.group(2)).strip() == selector:
+                j = i + 1
+                buf = None
+                while j < len(lines) and lines[j].strip() != '//@END':
+                    t = lines[j].strip()
+                    if t.startswith('//@'):
+                        buf = [] if t == '//@SPEC' else (None if buf is None else buf)
+                        if t != '//@SPEC' and buf is not None and spec is None:
+                            spec = '\n'.join(buf); buf = None
+                    elif buf is not None:
+                        buf.append(lines[j])
+                    j += 1
+                if spec is None and buf is not None:
+                    spec = '\n'.join(buf)
+                break
+        if spec is None:
+            raise ExtractError('STUBFN: no //@FN %s %s with a //@SPEC in %s' % (file, selector, opts['from']))
+        src, text, toks, items = self.source(file)
+        cands = rsx.select(items, selector, 'fn')
+        if len(cands) != 1:
+            raise ExtractError('lost anchor: %s in %s matches %d items' % (selector, file, len(cands)))
+        it = cands[0]
+        sig = text[it.start:it.sig_end]
+        fname = opts.get('rename') or selector.rsplit('::', 1)[-1]
+        names = None
+        if 'rules' in opts:
+            names = set(opts['rules'].split(',')) if opts['rules'] != 'none' else set()
+        sig = re.sub(r'^\s*pub(\s*\([^)]*\))?\s+', '', sig)
+        sig = strip_attrs_in_body(sig)
+        sig = self.apply_rules(sig, 'sig', names, fname)
+        sig = name_result(sig).rstrip()
+        for nm in re.findall(r'\b(SITE_\w+)\(\)', spec):
+            if nm not in self.sites:
+                self.sites.append(nm)
+        self.emit('// ---- contract stub (verified in %s): %s %s ----\n' % (opts['from'], file, selector))
+        self.emit('#[verifier::external_body]\n')
+        if opts.get('attr'):
+            self.emit('#[%s]\n' % opts['attr'])
+        self.emit('pub ' + sig + '\n' + spec.rstrip('\n') + '\n{ unimplemented!() }\n')
+        self.functions.append({'selector': selector, 'file': file, 'line': src.count('\n', 0, it.start) + 1, 'stub_of': opts['from']})
 
     def splice(self, fs, body):
         toks = rsx.lex(body)
